@@ -1,5 +1,6 @@
 import KsiVerif.Proofs.Async
 import KsiVerif.Proofs.TcpLen
+import KsiVerif.Proofs.AsyncKeep
 /-!
 # C13 — the asynchronous service completes every accepted request exactly once, correctly matched
 
@@ -382,5 +383,140 @@ theorem J_grow (s : Async.State) (back : List Nat) (n : Nat) (hj : J s back) : J
   · rw [hocc]; exact hj.occ_nodup
   · intro h hm; rw [htcp]; exact hj.back_lt h hm
   · intro h hm; rw [hocc]; exact hj.back_not_occ h hm
+
+/-! ### never lost -/
+
+/-- every accepted request (handles are the indices of the request objects) is still cached or has been handed back -/
+def K (s : Async.State) (back : List Nat) : Prop := ∀ h, h < s.tcp.reqs.length → h ∈ occupied s ∨ h ∈ back
+
+theorem K_add (s : Async.State) (back : List Nat) (now : Nat) (hw : W s) (hk : K s back) :
+    W (add s now).1 ∧ K (add s now).1 back := by
+  rcases add_spec_W s now hw with ⟨_, heq⟩ | ⟨_, hw', slot, hlt, hfree, hslots, hlen⟩
+  · rw [heq]; exact ⟨hw, hk⟩
+  · refine ⟨hw', fun h hh => ?_⟩
+    rw [hlen] at hh
+    unfold occupied
+    rw [hslots]
+    by_cases hnew : h = s.tcp.reqs.length
+    · left; subst hnew; exact mem_set_some_self _ _ _ hlt
+    · rcases hk h (by omega) with h1 | h1
+      · left; exact mem_set_some_of_mem _ _ _ _ hfree h1
+      · right; exact h1
+
+theorem K_run (interp : Bytes → Pdu) (o : Tcp.Opts) (rcvT : Nat) (e : Tcp.Env) (s : Async.State) (back : List Nat)
+    (hw : W s) (hk : K s back) :
+    W (run interp o rcvT e s).1 ∧
+    (∀ s' h st er, run interp o rcvT e s = (s', .handle h st er) → K s' (h :: back)) ∧
+    ((∀ h st er, (run interp o rcvT e s).2 ≠ .handle h st er) → K (run interp o rcvT e s).1 back) := by
+  obtain ⟨s1, hsame, hkeep, hrun⟩ := run_prefix_keep interp o e s
+  have hk1 : K s1 back := by
+    intro h hh; rw [hsame.2.2] at hh
+    unfold occupied; rw [hsame.1]; exact hk h hh
+  have hw1 : W s1 := ⟨by rw [hsame.1, hkeep.1]; exact hw.1, by rw [hkeep.1, hkeep.2]; exact hw.2.1, by rw [hkeep.1]; exact hw.2.2⟩
+  have hkf := findNext_keep s1 rcvT e.now
+  refine ⟨?_, ?_, ?_⟩
+  · rw [hrun rcvT]
+    cases hr : findNext s1 rcvT e.now with
+    | mk s' r =>
+      rw [hr] at hkf
+      have hlen : s'.slots.length = s1.slots.length := by
+        cases r with
+        | handle h st er =>
+          obtain ⟨i, _, hslots, _, _⟩ := findNext_returns s1 s' rcvT e.now h st er hr
+          rw [hslots]; simp
+        | none =>
+          have := findNext_nohandle s1 rcvT e.now (by rw [hr]; intro _ _ _ hc; cases hc)
+          rw [hr] at this; rw [this.1]
+        | conf =>
+          have := findNext_nohandle s1 rcvT e.now (by rw [hr]; intro _ _ _ hc; cases hc)
+          rw [hr] at this; rw [this.1]
+      exact ⟨by rw [hlen, hkf.1]; exact hw1.1, by rw [hkf.1, hkf.2]; exact hw1.2.1, by rw [hkf.1]; exact hw1.2.2⟩
+  · intro s' h st er hr
+    rw [hrun rcvT] at hr
+    obtain ⟨i, hslot, hslots, _, hlen⟩ := findNext_returns s1 s' rcvT e.now h st er hr
+    intro x hx
+    rw [hlen] at hx
+    rcases hk1 x hx with h1 | h1
+    · unfold occupied at h1 ⊢
+      rw [hslots]
+      rcases mem_set_none_or _ i x h1 with h2 | h2
+      · left; exact h2
+      · right; rw [hslot] at h2; cases h2; exact List.mem_cons_self ..
+    · right; exact List.mem_cons_of_mem _ h1
+  · intro hno
+    rw [hrun rcvT] at hno ⊢
+    have hs := findNext_nohandle s1 rcvT e.now hno
+    intro x hx
+    rw [hs.2.2] at hx
+    unfold occupied; rw [hs.1]
+    exact hk1 x hx
+
+/-- the state a history ends in -/
+def final (interp : Bytes → Pdu) (o : Tcp.Opts) (rcvT : Nat) : Async.State → List Op → Async.State
+  | s, [] => s
+  | s, op :: ops => final interp o rcvT (stepOp interp o rcvT s op).1 ops
+
+theorem conserved (interp : Bytes → Pdu) (o : Tcp.Opts) (rcvT : Nat) : ∀ (ops : List Op) (s : Async.State) (back : List Nat),
+    W s → K s back →
+    ∀ h, h < (final interp o rcvT s ops).tcp.reqs.length →
+      h ∈ occupied (final interp o rcvT s ops) ∨ h ∈ returned interp o rcvT s ops ∨ h ∈ back
+  | [], s, back, _, hk => fun h hh => by
+    rcases hk h hh with h1 | h1
+    · exact Or.inl h1
+    · exact Or.inr (Or.inr h1)
+  | op :: ops, s, back, hw, hk => by
+    intro h hh
+    unfold final at hh ⊢
+    unfold returned
+    cases op with
+    | add now =>
+      simp only [stepOp] at hh ⊢
+      have ⟨hw', hk'⟩ := K_add s back now hw hk
+      exact conserved interp o rcvT ops _ back hw' hk' h hh
+    | run e =>
+      have ⟨hw', hA, hB⟩ := K_run interp o rcvT e s back hw hk
+      simp only [stepOp] at hh ⊢
+      cases hr : run interp o rcvT e s with
+      | mk s' r =>
+        rw [hr] at hw' hh
+        cases r with
+        | handle h0 st er =>
+          simp only at hh ⊢
+          rcases conserved interp o rcvT ops s' (h0 :: back) hw' (hA s' h0 st er hr) h hh with h1 | h1 | h1
+          · exact Or.inl h1
+          · exact Or.inr (Or.inl (List.mem_cons_of_mem _ h1))
+          · rcases List.mem_cons.mp h1 with rfl | h1
+            · exact Or.inr (Or.inl (List.mem_cons_self ..))
+            · exact Or.inr (Or.inr h1)
+        | none =>
+          simp only at hh ⊢
+          have hk' : K s' back := by have := hB (by rw [hr]; intro _ _ _ hc; cases hc); rw [hr] at this; exact this
+          exact conserved interp o rcvT ops s' back hw' hk' h hh
+        | conf =>
+          simp only at hh ⊢
+          have hk' : K s' back := by have := hB (by rw [hr]; intro _ _ _ hc; cases hc); rw [hr] at this; exact this
+          exact conserved interp o rcvT ops s' back hw' hk' h hh
+
+/-- **Never lost.** Over every history from a new service with room for at least one request — any interleaving of
+submissions and runs, any network behaviour, any meaning of the received PDUs — every request object the service accepted is,
+at the end, either still in its cache (waiting, or finished and waiting to be collected) or among the handles it handed back.
+With `no_request_returned_twice`: handed back at most once, and never dropped. -/
+theorem never_lost (interp : Bytes → Pdu) (o : Tcp.Opts) (rcvT : Nat) (cacheSize : Nat) (hc : 1 ≤ cacheSize) (ops : List Op) :
+    ∀ h, h < (final interp o rcvT (Async.init cacheSize) ops).tcp.reqs.length →
+      h ∈ occupied (final interp o rcvT (Async.init cacheSize) ops) ∨ h ∈ returned interp o rcvT (Async.init cacheSize) ops := by
+  intro h hh
+  have hw : W (Async.init cacheSize) := ⟨by simp [Async.init], by simp [Async.init], by simp [Async.init]; omega⟩
+  have hk : K (Async.init cacheSize) [] := by intro x hx; simp [Async.init] at hx
+  rcases conserved interp o rcvT ops _ [] hw hk h hh with h1 | h1 | h1
+  · exact Or.inl h1
+  · exact Or.inr h1
+  · cases h1
+
+/-- every accepted submission creates exactly one request object (so "accepted requests" = indices below `reqs.length`) -/
+theorem accepted_creates_one (s : Async.State) (now : Nat) (hw : W s) (h0 : (add s now).2.1 = 0) :
+    (add s now).1.tcp.reqs.length = s.tcp.reqs.length + 1 := by
+  rcases add_spec_W s now hw with ⟨hf, _⟩ | ⟨_, _, _, _, _, _, hlen⟩
+  · rw [h0] at hf; cases hf
+  · exact hlen
 
 end KsiVerif.Props.C13
